@@ -880,6 +880,8 @@ func (r TypeInfo) IsOption() bool {
 
 func (r TypeInfo) IsNilable() bool {
 	switch atp := r.Type.(type) {
+	case *types.Alias:
+		return typeInfo(atp.Rhs()).IsNilable()
 	case *types.Pointer:
 		return true
 	case *types.Slice:
